@@ -6,6 +6,7 @@ mod c14;
 mod c15;
 mod c16;
 mod c18;
+mod c20;
 mod corescn;
 mod model;
 mod ops;
@@ -174,6 +175,47 @@ fn main() {
                 ],
                 "all sequences over {set, cset (matching and stale), delete, pdelete of one and of several keys, connect, grave-goods / last-will registration, disconnect, settle (writer runs)} up to the completed depth, each ended by a crash (drop of the runtime) or by a clean stop (flush), followed by a restore from the database file in a fresh runtime; distinct_nontrivial counts distinct (last step, outcome) classes",
             );
+            std::fs::remove_dir_all(persist::scratch_root()).ok();
+            code
+        }
+        "C20" => {
+            let mut ev = mc::Evidence::new("C20", &tier, "model_checking");
+            let mut rep = mc::Report::new("C20");
+            let mut classes = std::collections::BTreeSet::new();
+            let thorough = tier == "thorough";
+            let mut run_one = |name: &str, sc: &dyn Scenario, l: mc::Limits, ev: &mut mc::Evidence, rep: &mut mc::Report, engine: &str| {
+                let stats = mc::explore(sc, &l);
+                eprintln!("[C20/{name}] states={} transitions={} depth={} fixpoint={} cap={:?} classes={} known={} violations={}", stats.states, stats.transitions, stats.depth_completed, stats.exhausted, stats.capped, stats.classes.len(), stats.known.len(), stats.violations.len());
+                for c in &stats.classes {
+                    classes.insert(format!("{name}:{c}"));
+                }
+                runner::absorb(name, sc, &stats, ev, rep, engine);
+            };
+            for (name, sc) in c20::pairing_scenarios(&tier) {
+                let total: usize = sc.scripts.iter().map(Vec::len).sum::<usize>() * 2;
+                run_one(&name, &sc, lim(total + 1, 4, true, if thorough { 500 } else { 25 }), &mut ev, &mut rep, "graph/sched");
+            }
+            let upd = c20::UpdateScenario { tasks: 3 };
+            run_one("update-race", &upd, lim(40, 4, true, if thorough { 400 } else { 30 }), &mut ev, &mut rep, "graph/sched");
+            let buf = c20::buffer_scenario();
+            run_one("send-buffer", &buf, lim(if thorough { 7 } else { 5 }, 3, false, if thorough { 600 } else { 30 }), &mut ev, &mut rep, "tree");
+            let (n, samples) = c20::run_unsubscribe(&mut rep);
+            ev.add("evaluations", n);
+            ev.set("unsubscribe_variants_checked", serde_json::json!(n));
+            for s in samples {
+                ev.push_sample(s);
+            }
+            ev.set("distinct_nontrivial", serde_json::json!(classes.len()));
+            ev.set("rule", serde_json::json!("(1) every interleaving of 'task i submits its next call' and 'the server processes the next queued request' for 2-3 tasks with 2-3 calls each on colliding keys over one real client connection (unix transport, real serve loop, real core task gated by the explorer), explored to the end and de-duplicated by (store, queue, task positions); (2) the same for tasks racing update() on one counter; (3) all sequences of set_later/publish_later on colliding keys and clock advances of D/2 and D for the send buffer on a paused clock, followed by a final advance; (4) the four unsubscribe variants x value/pattern/ls; distinct_nontrivial counts distinct (scenario, step kind) classes"));
+            for a in [
+                "one stimulus at a time: after every release the harness yields a fixed number of times on a paused current-thread runtime (event_interval 1) and never parks, so a both-ready select! of the client's run loop is equivalent to one of the two sequential orders, both of which are explored",
+                "requests of one connection reach the core in submission order (ordered byte stream, sequential serve loop); the i-th submitted call is the i-th request the core processes on that connection",
+                "a real unix socket is used inside the runtime; the determinism self-check of the explorer guards the assumption that its readiness order is reproducible",
+                "the local (in-process) transport of the client library is not covered",
+            ] {
+                ev.assume(a);
+            }
+            let code = rep.finish(&mut ev);
             std::fs::remove_dir_all(persist::scratch_root()).ok();
             code
         }
